@@ -21,7 +21,7 @@ MANIFEST = dict(
          "the real code; each result is compared with the fresh-file result and the oracle, and at the end every iterator is "
          "drained and must deliver the remaining chunks in order.  The solver enumerates the feasible histories and decides the "
          "window arithmetic of each operation; this is the bounded-history analogue of a model check.",
-    note="Trusted: z3, sx engine, oracle. Bounds: history length H (3 quick on the first file, 2 on the others; thorough 4 / 3), "
+    note="Trusted: z3, sx engine, oracle. Bounds: history length H (3 quick on the first file, 2 on the others; thorough 3 on all), "
          "windows of length <= 2, files of the stated family. Single-threaded histories only (as the property states).",
     technique="bounded symbolic execution of operation histories on the real code + SMT (z3, QF_LIA) per path; replay gate",
 )
@@ -36,7 +36,7 @@ META = dict(
     bounds=dict(quick='4 files (2 segments x 2 chunks contiguous; same interleaved; 3 segments with chunk counts 1,3,2 and channel b '
                       'absent from the middle one; one segment whose last chunk is declared partial by the lead-in); histories of length 3 on the first file and 2 on the others over 7 operation '
                       'kinds; index any valid position; windows offset in [0,n], length in {1,2}',
-                thorough='histories of length 4 on the first file, 3 on the others'),
+                thorough='histories of length 3 on every file'),
     outside=['longer histories', 'threads', 'slices with steps (same code path as windows, see C04)', 'DAQmx files'],
     stubs=c04.META['stubs'],
     assumptions=c04.META['assumptions'] + ['reference for each operation = the same request on a freshly opened file, cross-checked '
@@ -81,7 +81,7 @@ def _build(task):
 def tasks(tier, seed):
     ts = []
     for fi, sh in enumerate(files()):
-        H = (3 if fi == 0 else 2) if tier == 'quick' else (4 if fi == 0 else 3)
+        H = (3 if fi == 0 else 2) if tier == 'quick' else 3          # (H = 4 on the first file exhausts the per-task budget: not claimed)
         fixed = 2 if H >= 3 else 1
         for pre in itertools.product(range(len(OPS)), repeat=fixed):
             ts.append(dict(shape=sh, file=fi, H=H, prefix=list(pre)))
